@@ -163,6 +163,10 @@ func genPlan(t *rapid.T) Plan {
 				tk.B = append(tk.B, a+int64(rapid.IntRange(1, 60).Draw(t, "del-len")))
 			}
 			tk.Index = rapid.Bool().Draw(t, "del-index")
+		case "chan":
+			// short tasks: the last create and delete calls of two tasks sharing a key are
+			// then likely to overlap, and nothing later heals what a lost race leaves behind
+			tk.Iter = rapid.SampledFrom([]int{1, 1, 2, 3, 4, 12}).Draw(t, "chan-iter")
 		default:
 			tk.Iter = rapid.IntRange(1, 12).Draw(t, "iter")
 		}
@@ -317,6 +321,24 @@ func run(p Plan, rep *kit.Report) error {
 			return kit.Fail("reopen-error", "cesium.Open after the sequential prelude: %v", err)
 		}
 		rep.Class("prelude-then-reopen")
+	}
+	// channels the "chan" tasks race on exist beforehand, so that a task starting with a
+	// delete has something to delete
+	for _, tk := range p.Tasks {
+		if tk.Kind != "chan" {
+			continue
+		}
+		key := uint32(100 + tk.Group%2)
+		if _, rerr := db.RetrieveChannel(ctx, key); rerr == nil {
+			continue
+		}
+		ev := event{invoke: tick()}
+		if cerr := db.CreateChannel(ctx, cesium.Channel{Key: key, Name: fmt.Sprint("tmp", key), DataType: telem.TimeStampT, IsIndex: true}); cerr != nil {
+			_ = db.Close()
+			return kit.Fail("setup", "create side channel: %v", cerr)
+		}
+		ev.ret = tick()
+		chanOps[key] = append(chanOps[key], chanOp{create: true, ev: ev})
 	}
 	fs.Enable(true)
 	var wg sync.WaitGroup
